@@ -123,7 +123,8 @@ Cmt == IF Rich THEN 0..1 ELSE {0}
 Joined == IF Rich THEN {<<b, a, t>> : b \in 0..2, a \in 0..1, t \in 0..1}
           ELSE {<<0, 0, 0>>, <<1, 1, 1>>}
 Indent == IF Rich THEN {"none", "two", "tab"} ELSE {"two"}
-Eol == {"crlf", "lf", "cr", "mixed"}
+\* (the deep exhaustive configuration of the quick tier keeps two of the four conventions: the wide one has all four)
+Eol == IF FaultSel = "base" /\ MaxCall = 1 /\ MaxNest = 1 /\ ~Rich THEN {"crlf", "mixed"} ELSE {"crlf", "lf", "cr", "mixed"}
 Pre == IF Rich THEN 0..3 ELSE {0}
 CsNest == IF Rich THEN {"none", "if", "for", "select", "oneline"} ELSE {"none"}
 \* 1: a division by zero, 2: a failing built-in function (which has a context and a call-stack entry of its own)
@@ -132,7 +133,9 @@ Prior == IF Rich THEN 0..2 ELSE IF FaultSel = "base" THEN {0, 2} ELSE {0}
 Helpers == IF Rich THEN 0..2 ELSE {1}
 \* how each procedure of the chain is declared / entered: plain; STATIC (its own kind of activation record); "rec": it
 \* first calls itself twice through ONE call site (the same call site is active several times, in a row)
-Mods == IF Rich \/ FaultSel = "base" THEN {"plain", "static", "rec"} ELSE {"plain"}
+\* (exhaustive configurations: only where the nesting dimension is small, or the product is out of reach)
+Mods == IF Rich \/ (FaultSel = "base" /\ MaxNest <= 1 /\ MaxCall <= 1) \/ (FaultSel = "base" /\ MaxNest = 0)
+        THEN {"plain", "static", "rec"} ELSE {"plain"}
 
 VARIABLES phase, c
 vars == <<phase, c>>
